@@ -17,11 +17,11 @@ STRS = [
     "none", "null", "path", "\\path", "100%", "%d", "%s%s", "%(a)s", "<b>&\"'`", "é",
     "a/b", "a.b", "b", "c", "x", "y", "3", "+5", "1_0", "3.0",
     "inf", "-Infinity", "1e999", "nan", "{x}", "a}", "${HOME}", "{{ user }}", "{0}",
-    "yes", "no", "on", "off", "010", "1:30", "~",
+    "yes", "no", "on", "off", "010", "1:30", "~", "%c", "%c%c", "%5.2f", "%x",
 ]
 KEYS_STR = ["a", "b", "c", "x", "y", "", "0", "1", "A", "key", "path", "a.b", "value", "keys", "paths", "{x}", "a}", "${HOME}", "%(k)s"]
 KEYS_OTHER = [0, 1, 2, True, False, 2.5, None, -1, 1.5, 10, -0.0, 1e300, 2**40]
-KEYS_RARE = ["yes", "no", "on", "off", "y", "n", "010", "1:30", "~", "null", "0x1F", "1_000", " ", "a b", "line\nbreak", "tab\t", "é", "None", "True", "1.0", "-1", "a.b.c", "a/b", "k" * 60, "'q'", '"dq"', "#", "- x", "?", ":", "*", "&a"]
+KEYS_RARE = ["e\u0301", "\u212b", "\u00e9", "k" * 700, "yes", "no", "on", "off", "y", "n", "010", "1:30", "~", "null", "0x1F", "1_000", " ", "a b", "line\nbreak", "tab\t", "é", "None", "True", "1.0", "-1", "a.b.c", "a/b", "k" * 60, "'q'", '"dq"', "#", "- x", "?", ":", "*", "&a"]
 
 
 def scalar(rng):
@@ -369,6 +369,9 @@ def _part_for(rng, node, cond_depth=1, prim_p=0.5, miss_p=0.15, kinds_p=None):
             part["list_condition"] = tree(rng, cond_depth, ["index"], pool=[0, 1, 2, 3])
         if rng.random() < 0.15:
             part["condition"] = tree(rng, cond_depth, ["value"], pool=vals, keypool=keys)
+        elif rng.random() < 0.08 and "value" not in part:
+            # a bare key / index condition in the general slot: applies to one container kind only
+            part["condition"] = leaf(rng, kind=rng.choice(["key", "index"]), pre=None, well_typed=True, pool=keys or [0, 1], keypool=keys)
     return part
 
 
